@@ -660,6 +660,28 @@ func (k *Kernel) addProposedHeader(ctx context.Context, s *kState, ph tmconsensu
 	}
 }
 
+// validatorSetMatchesHashes reports whether the validators and public keys listed in vs
+// hash to the public key hash and vote power hash that vs declares.
+func (k *Kernel) validatorSetMatchesHashes(vs tmconsensus.ValidatorSet) bool {
+	if len(vs.Validators) == 0 || len(vs.PubKeys) != len(vs.Validators) {
+		return false
+	}
+
+	want, err := tmconsensus.NewValidatorSet(vs.Validators, k.hashScheme)
+	if err != nil {
+		return false
+	}
+
+	for i, key := range vs.PubKeys {
+		if key == nil || !key.Equal(want.PubKeys[i]) {
+			return false
+		}
+	}
+
+	return bytes.Equal(want.PubKeyHash, vs.PubKeyHash) &&
+		bytes.Equal(want.VotePowerHash, vs.VotePowerHash)
+}
+
 // mapToSparseSignatureCollection converts a mapped full proof
 // to a SparseSignatureCollection.
 // TODO: we should extract a type for the full map
@@ -2024,6 +2046,16 @@ func (k *Kernel) handleReplayedHeader(
 			Err: fmt.Errorf(
 				"replayed header's validator set (pub key hash %x) differs from the expected validator set (pub key hash %x) at height %d",
 				header.ValidatorSet.PubKeyHash, s.Voting.ValidatorSet.PubKeyHash, h,
+			),
+		}
+	}
+	// The block hash only covers the hashes the validator sets declare,
+	// so the lists themselves have to be checked against those hashes;
+	// otherwise a header altered in transit would make us adopt other keys or powers.
+	if !k.validatorSetMatchesHashes(header.ValidatorSet) || !k.validatorSetMatchesHashes(header.NextValidatorSet) {
+		return tmelink.ReplayedHeaderValidationError{
+			Err: fmt.Errorf(
+				"replayed header's validator lists at height %d do not match the validator hashes it declares", h,
 			),
 		}
 	}
